@@ -210,6 +210,23 @@ def r3_r4(ctx, regions):
                 an = set(a.param_names().values())
                 gparams = {l for l, nm in b.param_names().items() if nm not in an}
 
+        # parameters of expanded helpers (inline.py) that exist only with the feature
+        for d in b.raw["debug"]:
+            hp = d.get("inlined_from")
+            pl = d.get("pl")
+            if hp and "inl_arg" in d and pl is not None and not pl["p"]:
+                hb = getattr(PB, "helper_bodies", {}).get(b.crate + "::" + hp)
+                ha = getattr(PA, "helper_bodies", {}).get(b.crate + "::" + hp)
+                if hb is not None and ha is not None and d["name"] in set(hb.param_names().values()) \
+                        and d["name"] not in set(ha.param_names().values()):
+                    gparams.add(pl["l"])
+
+        # temporaries that only carry an argument into an expanded helper: the helper's statements are checked in place
+        arg_carriers = set()
+        for _bb, _j, st in b.all_statements():
+            if st.get("inlined_arg") and st["rv"]["k"] == "use" and st["rv"]["op"].get("k") in ("copy", "move") and not st["rv"]["op"]["pl"]["p"]:
+                arg_carriers.add(st["rv"]["op"]["pl"]["l"])
+
         def target_ok(pl, bb=0, j=0):
             l = pl["l"]
             fs = place_fields(pl)
@@ -259,7 +276,8 @@ def r3_r4(ctx, regions):
             probs = []
             if not target_ok(s["pl"], bb, j):
                 probs.append("assignment to ungated place %s" % _pl(b, s["pl"]))
-            if rv["k"] in ("ref", "rawptr") and (rv.get("mut") or rv["k"] == "rawptr"):
+            if rv["k"] in ("ref", "rawptr") and (rv.get("mut") or rv["k"] == "rawptr") and not (
+                    not s["pl"]["p"] and s["pl"]["l"] in arg_carriers):
                 if not target_ok(rv["pl"], bb, j):
                     probs.append("mutable borrow of ungated place %s" % _pl(b, rv["pl"]))
             if probs:
